@@ -335,8 +335,26 @@ void World::CheckInterrupt(const InvRecord& r) {
   if (r.res.exit_code != 130) {
     if (regen_running && r.res.exit_code == 1)
       Report("C07", "regen_interrupt_status", "ninja interrupted while regenerating the manifest exited with status 1 instead of 130");
-    else
-      Report("C07", "interrupt_cleanup", "interrupted ninja exited with status " + S(r.res.exit_code) + " instead of 130");
+    else {
+      // K33: the terminal's signal also killed the console command; ninja concluded "interrupted"
+      // from that command's wait status (ExitInterrupted in Builder::Build) while its own copy of
+      // the signal was still blocked and pending - its handler never ran - and died from it at exit
+      bool via_console = false;
+      if (r.res.exit_code == 128 + r.interrupt_sig && r.res.fired.count("killed_by_default_action")) {
+        uint64_t handled = 0, tty_reaped = 0;
+        std::set<int> tty_pids;
+        for (const Ev& e : r.res.trace) {
+          if (e.kind == Ev::kKill && e.s == "tty") tty_pids.insert(e.a);
+          else if (e.kind == Ev::kReap && tty_pids.count(e.a) && !tty_reaped) tty_reaped = e.seq;
+          else if (e.kind == Ev::kSignal && e.a == r.interrupt_sig && e.s == "delivered" && !handled) handled = e.seq;
+        }
+        via_console = tty_reaped && (!handled || handled > tty_reaped);
+      }
+      if (via_console)
+        Report("C07", "interrupt_status_console_hangup", "a hang-up of the terminal killed the console command; ninja stopped because of that command's status and then died from its own pending signal: status " + S(r.res.exit_code) + " instead of 130");
+      else
+        Report("C07", "interrupt_cleanup", "interrupted ninja exited with status " + S(r.res.exit_code) + " instead of 130");
+    }
   }
   if (r.lock_at_exit)
     Report("C07", "interrupt_cleanup", "interrupted ninja left its lock file behind");
